@@ -1519,26 +1519,28 @@ pub fn sample_migration_state(salt: u64, lo: u32, hi: u32, nfs: &[[u8; 32]]) -> 
     Some(MigrationState::from_parts(status, den, PreparationPlan::from_parts(vec![], vec![]), txs, AnchorBucketInterval::custom(NonZeroU32::new(144).unwrap()), ReplanThreshold::new(50).unwrap()))
 }
 
-/// Everything the SQLite migration store answers about an account's pending migration through its read
-/// interface: one (call, answer) pair per library call (each call is one read of the database and must be
-/// consistent in itself).
-pub fn render_migration_reads(net: zcash_protocol::local_consensus::LocalNetwork, conn: &Connection, acct: zcash_client_sqlite::AccountUuid, tag: &str, mark: &dyn Fn()) -> Vec<(String, String)> {
+/// The transactions of an account's pending migration (read without any concurrency; the arguments of the
+/// snapshot reads below).
+pub fn pending_transactions(net: zcash_protocol::local_consensus::LocalNetwork, conn: &Connection, acct: zcash_client_sqlite::AccountUuid) -> Vec<MigrationTransaction> {
+    PoolMigrations::for_account(net, SimClock(std::sync::Arc::new(1_700_000_000.into())), conn, acct).ok().and_then(|pm| pm.get_migration().ok().flatten()).map(|s| s.transactions().to_vec()).unwrap_or_default()
+}
+
+/// The migration store's documented snapshot reads (`check_step_satisfiability`, `mined_height`) for the given
+/// transactions: one (call, answer) pair per library call. (`get_migration` and the other multi-statement reads
+/// are documented as *not* being snapshots and are not part of this.)
+pub fn snapshot_reads(net: zcash_protocol::local_consensus::LocalNetwork, conn: &Connection, acct: zcash_client_sqlite::AccountUuid, txs: &[MigrationTransaction], tag: &str, mark: &dyn Fn()) -> Vec<(String, String)> {
     let pm = match PoolMigrations::for_account(net, SimClock(std::sync::Arc::new(1_700_000_000.into())), conn, acct) {
         Ok(pm) => pm,
-        Err(e) => return vec![(format!("{tag}/for_account"), format!("ERR {e:?}"))],
+        Err(_) => return vec![],
     };
-    let state = match pm.get_migration() {
-        Ok(Some(s)) => s,
-        Ok(None) => return vec![(format!("{tag}/get_migration"), "none".into())],
-        Err(e) => return vec![(format!("{tag}/get_migration"), format!("ERR {e:?}"))],
-    };
-    let mut out = vec![(format!("{tag}/get_migration"), format!("{:?} {:?}", state.status(), state.transactions().iter().map(|t| (t.id(), t.state(), t.unsatisfiable(), t.broadcast_failure_at())).collect::<Vec<_>>()))];
-    for t in state.transactions() {
+    let mut out = vec![];
+    for t in txs {
         let key = hex::encode(&t.txid().as_ref()[..6]);
         if !matches!(t.state(), MigrationTxState::Mined { .. }) {
             mark();
             out.push((format!("{tag}/sat/{key}"), format!("{:?}", pm.check_step_satisfiability(t, ReorgSettleDepth::new(3)).map_err(|e| format!("{e:?}")))));
         }
+        mark();
         out.push((format!("{tag}/mined_height/{key}"), format!("{:?}", pm.mined_height(t.txid()).map_err(|e| format!("{e:?}")))));
     }
     out
